@@ -157,7 +157,7 @@ CHECKS = [
         "matrix and series views of every chunk are exact projections of that one table with the same keys, order, sample count "
         "(C02_views_project) and original BSON types (C02_types_preserved). Correspondence on shape classes with measured quotas (depth >= 4, "
         "sibling sub-documents, arrays in documents in arrays) through all six reader entry points; oracle built from the input documents only.",
-        "Trusted: as C01. Known finding D1 (timestamp seconds x1000) excluded by hypothesis and proved as C02_timestamp_refuted. Arrays are assumed "
+        "A second stage feeds streams of the independent specification encoder of C03 (forms no collector writes) to every view and compares each with the table the specification decoder reads. Trusted: as C01. Known finding D1 (timestamp seconds x1000) excluded by hypothesis and proved as C02_timestamp_refuted. Arrays are assumed "
         "to have fewer than 10^40 elements (decimal index rendering of the model).",
         "Coq proof (induction over value trees; injectivity of dot-joined paths) + differential correspondence",
         "DESIGN.md section 8 C02"),
